@@ -555,7 +555,7 @@ class Parser:
             if self.at("}"):
                 tail = e
                 break
-            if e[0] in ("if", "match", "block"):
+            if e[0] in ("if", "match", "block", "iflet"):   # `iflet`: only produced by rs2lean_mut.MutParser
                 stmts.append(("expr", e))
                 continue
             self.fail("expected `;` or `}` after an expression")
@@ -617,7 +617,7 @@ class Source:
                 depth -= 1
         return depth
 
-    def fn(self, header, name):
+    def fn(self, header, name, parser_cls=None):
         """parse `fn name(params) -> ret { body }` found directly inside `header`'s braces.
         returns dict(params=[(name, type, is_mut)], ret=type|None, body=block, generics=str)"""
         lo, hi = self.region(header)
@@ -634,7 +634,7 @@ class Source:
         if 0 <= semi < o:
             raise XlateError(f"{what}: fn has no body")
         end = self._match_brace(o)
-        p = Parser(tokenize(self.text[start:end + 1]), what)
+        p = (parser_cls or Parser)(tokenize(self.text[start:end + 1]), what)
         p.expect("fn")
         p.ident()
         generics = p.generic_args() if p.at("<") else ""
